@@ -27,7 +27,7 @@ PROPS = {
                 theorems=["TzVerif.C16." + t for t in ["split_correct", "split_range", "recombine", "roundtrip", "roundtrip'", "recombine_fits_i128",
                                                        "utc_from_total", "dt_from_total_local", "dt_from_total_zone", "nanoseconds_refused"]]),
     "C17": dict(groups=["findn"], families=["findn", "find", "zone"], level="proof", errkind_matters=False, theorems=["TzVerif.C17." + t for t in ['push_all', 'tail_untouched', 'accessors_agree', 'same_search']]),
-    "C18": dict(groups=["fmt"], families=["fmt"], level="exploration", errkind_matters=False, theorems=[]),
+    "C18": dict(groups=["fmt"], families=["fmt"], level="proof", errkind_matters=False, theorems=["TzVerif.C18." + t for t in ["read_back","z_iff_zero_offset","fixed_width"]]),
     "C19": dict(groups=["core"], families=["utcnew", "utccmp", "utctn", "fmt", "dtnew", "dtfromlocal", "dttn", "dtcmp", "lttnew", "rulenew", "zone", "lookup", "dtfrom", "zonenew", "find", "findn"],
                 level="translation_validation", errkind_matters=True, theorems=[], special="c19", build_is_check=True),
     "C20": dict(groups=["resolve"], families=["resolve"], level="proof", errkind_matters=True, theorems=["TzVerif.C20." + t for t in ["relative_lookup","absolute_lookup","empty_refused","localtime_value","colon_value","plain_value","only_candidates","go_spec"]]),
